@@ -452,6 +452,24 @@ def _clean_up_state(state: State) -> None:
             and flow_state.activated == 0
         ):
             states_to_be_removed.append(flow_state.uid)
+
+    # An instance that is still the parent of an instance that is kept must be kept
+    # as well, since the parent is looked up when the child finishes or restarts
+    removable_uids = set(states_to_be_removed)
+    parent_kept = True
+    while parent_kept:
+        parent_kept = False
+        for flow_state in state.flow_states.values():
+            if (
+                flow_state.uid not in removable_uids
+                and flow_state.parent_uid in removable_uids
+            ):
+                removable_uids.discard(flow_state.parent_uid)
+                parent_kept = True
+    states_to_be_removed = [
+        uid for uid in states_to_be_removed if uid in removable_uids
+    ]
+
     for flow_state_uid in states_to_be_removed:
         flow_state = state.flow_states[flow_state_uid]
         if (
@@ -474,6 +492,13 @@ def _clean_up_state(state: State) -> None:
         for action_uid in flow_state.action_uids:
             if action_uid not in new_action_dict:
                 new_action_dict.update({action_uid: state.actions[action_uid]})
+    # An action that has not finished yet is still needed to interpret its events
+    for action_uid, action in state.actions.items():
+        if (
+            action_uid not in new_action_dict
+            and action.status != ActionStatus.FINISHED
+        ):
+            new_action_dict.update({action_uid: action})
     state.actions = new_action_dict
 
 
